@@ -178,7 +178,8 @@ tscalar random_scalar(vrng& r)
         case 2: return std::numeric_limits<tscalar>::infinity();
         case 3: return std::numeric_limits<tscalar>::max();
         case 4: return std::numeric_limits<tscalar>::denorm_min();
-        case 5: return static_cast<tscalar>(0);
+        case 5:
+        case 6: return static_cast<tscalar>(0);
         default: return static_cast<tscalar>(r.real(-1e3, 1e3));
         }
     }
@@ -806,7 +807,9 @@ void body(ctx_t& c)
             const int nmasks = thorough ? 8 : 1;
             for (int m = 0; m < nmasks; ++m)
             {
-                const auto mask = thorough ? static_cast<uint8_t>(1U << m) : static_cast<uint8_t>(1 + r.next() % 255);
+                // quick tier: half of the masks are single-bit flips (the sign bit of a +-0.0 is one bit of one byte)
+                const auto mask = thorough ? static_cast<uint8_t>(1U << m)
+                                           : (r.coin(0.5) ? static_cast<uint8_t>(1U << (r.next() % 8)) : static_cast<uint8_t>(1 + r.next() % 255));
                 const auto a    = attempt(obj, obj.bytes, len, false, r.next(), {simfs::flip{region.offset + off, mask}});
                 ++reads;
                 c.fire("payload_byte_flip");
